@@ -226,6 +226,9 @@ CONSTANTS Alphabet, MaxLen, EmitObl
 VARIABLES toks, sy
 vars == <<toks, sy>>
 
+\* (a configuration file cannot spell a token that holds quotes: SY_str.cfg takes this one)
+StrAlphabet == {"1", "\"s\"", "IF(", ",", ")", "&", "{", "}", ";"}
+
 Init == toks = <<>> /\ sy = Init0
 
 \* White space is the intersection operator only between the end of one
